@@ -130,6 +130,7 @@ inductive TEv
   | ret (id : Nat) (res : String)
   | gnew (a : List (TP × Int))
   | fetch (ok : Bool)
+  | ids (loop : Bool) (gid : String) (m : String)   -- ids of the generation a commit loop was started for / an OffsetCommit carried
   | ack (offs : Stash) (ok : Bool)   -- the coordinator's own decision on the OffsetCommit that follows as `.m (.attempt …)`
   | sub (a : List (TP × Int))
 
@@ -204,6 +205,16 @@ def monBelieved (es : List TEv) : Option String :=
       | _ => none
     | _ => none) [] es 0
 
+/-- an OffsetCommit carries the generation id and member id of the generation its commit loop was started for -/
+def monCommitIds (es : List TEv) : Option String :=
+  scan (fun past e =>
+    match e with
+    | .ids false gid m =>
+      match past.find? (fun p => match p with | .ids true _ _ => true | _ => false) with
+      | some (.ids true gid' m') => if gid == gid' && m == m' then none else some s!"commit-with-foreign-generation:{gid}/{m}!={gid'}/{m'}"
+      | _ => some "commit-outside-a-commit-loop"
+    | _ => none) [] es 0
+
 /-- the Reader subscribes with exactly the generation's assignment offsets -/
 def monSubscribe (es : List TEv) : Option String :=
   scan (fun past e =>
@@ -232,6 +243,10 @@ def showLPC (p : LPC) : String := (((toString (repr p)).replace "\n" " ").take 1
 attempt as the library saw it; the 3-field form means both agree -/
 def parseTEvs (tok : String) : Option (List TEv) :=
   match tok.splitOn ":" with
+  | ["att", offs, lib, coord, gid, m] => do
+    let o ← parseEntries offs
+    some [.ids false gid m, .ack o (← parseB coord), .m (.attempt o (← parseB lib))]
+  | ["begin", sy, gid, m] => do some [.ids true gid m, .m (.begin (← parseB sy))]
   | ["att", offs, lib, coord] => do
     let o ← parseEntries offs
     some [.ack o (← parseB coord), .m (.attempt o (← parseB lib))]
@@ -249,7 +264,7 @@ def opTrace (mode evs : String) : String :=
     let acc := match cfirstReject {} mevs 0 with
       | none => "ok"
       | some (i, s) => s!"reject@{i}-of-model-events:{showLPC s.pc}"
-    let ms := [monCommitLeHanded es, monSyncRecorded sync es, monBelieved es, monSubscribe es, monFetchBeforeGen es].filterMap id
+    let ms := [monCommitLeHanded es, monSyncRecorded sync es, monBelieved es, monCommitIds es, monSubscribe es, monFetchBeforeGen es].filterMap id
     let m := if ms.isEmpty then acc else acc ++ " mon=" ++ ",".intercalate ms
     s!"model={m} holds={if ms.isEmpty then 1 else 0}"
   | none => s!"bad-op {(toks.find? (fun t => (parseTEv t).isNone)).getD "?"}"
